@@ -67,6 +67,8 @@ def run(ctx: Ctx):
                                      args_fn=lambda rng, ast: [rng.choice(["-O0", "-O1", "-O2", "-O3"]), "-findirect-start-ptr"])
         pool += pl
         ctx.count("programs_generated", st["generated"])
+    c01.add_shapes(ctx, rng, pool, c01.loop_tail_shapes(rng, 12 if quick else 160, yields=True), "loop_tail_shapes_accepted")
+    c01.add_shapes(ctx, rng, pool, c01.loop_tail_shapes(rng, 10 if quick else 100, yields=True, family="append-yield"), "append_yield_shapes_accepted", levels=("-O0", "-O2", "-O3", "-O3"))
     c01.run_pool(ctx, rng, quick, pool, "c10", pointers=True, nwalk=35 if quick else 80)
 
     # ---- B: protocol monitor over hostile call histories (generated + corpus, no model needed) -------------------
